@@ -10,7 +10,7 @@
                                       stopFn/stopped assigned before close(startedCh)); deferred Unlock
       handler goroutine   l.453-472   h.run (go handleClose; range messagesCh; publisher.Close);
                                       handlersWg.Done; handlersLock.Lock; delete; Unlock; close(stopped); cancel
-      handleClose         l.774-787   select { routersCloseCh -> subscriber.Close | ctx.Done }; stopFn()
+      handleClose                     select { routersCloseCh -> subscriber.Close | ctx.Done -> poll routersCloseCh: closed -> subscriber.Close }; stopFn()
       watcher             l.479-516   [hasNoHandlersYet] select { <-handlerAdded | <-closedCh };
                                       handlersWg.Wait; IsClosed; Close
       AddHandler          l.279-336   Lock; handlersWg.Add(1); insert; NON-BLOCKING send on handlerAdded
@@ -131,6 +131,7 @@ Inductive tpc :=
 Record rstate := RS {
   fix4 : bool;                 (* D4 repaired *)
   fix14 : bool;                (* D14 repaired *)
+  fix15 : bool;                (* D15 repaired: the watcher's select also waits for the Run context *)
   nexth : nat;
   hs : hid -> hst;
   isRunning : bool;
@@ -143,6 +144,7 @@ Record rstate := RS {
   closingCh : bool;            (* closingInProgressCh closed *)
   closedCh : bool;
   closedF : bool;              (* r.closed *)
+  closeErr : bool;             (* r.closeErr set: a Close timed out (D12 repair: later Close calls return it) *)
   cctx : bool;                 (* the client cancelled the context it gave to Run *)
   rcancel : bool;              (* Run called its own cancel() *)
   pubClosed : pubid -> bool;
@@ -154,11 +156,11 @@ Record rstate := RS {
   panicked : bool              (* runtime panic inside a router goroutine (negative WaitGroup counter) *)
 }.
 #[export] Instance eta_rstate : Settable _ := settable! RS
-  <fix4; fix14; nexth; hs; isRunning; runningCh; hlock; clock; hwg; hadded; maplen; closingCh;
-   closedCh; closedF; cctx; rcancel; pubClosed; mainp; maint; wat; thr; run_n; panicked>.
+  <fix4; fix14; fix15; nexth; hs; isRunning; runningCh; hlock; clock; hwg; hadded; maplen; closingCh;
+   closedCh; closedF; closeErr; cctx; rcancel; pubClosed; mainp; maint; wat; thr; run_n; panicked>.
 
-Definition rinit (f4 f14 : bool) : rstate :=
-  RS f4 f14 0 (fun _ => h0) false false None None 0 0 0 false false false false false
+Definition rinit (f4 f14 f15 : bool) : rstate :=
+  RS f4 f14 f15 0 (fun _ => h0) false false None None 0 0 0 false false false false false false
      (fun _ => false) RNone 0 WNone (fun _ => TNone) 0 false.
 
 (** API-level events (what a client / the scripted collaborators can see) *)
@@ -189,6 +191,7 @@ Inductive aev :=
 Inductive choice :=
 | CStep                         (* the deterministic next step / first select branch *)
 | CAlt                          (* second select branch; Close: the CloseTimeout fires *)
+| CCtx                          (* watcher (D15 repair): the <-ctx.Done() branch of its select *)
 | CPick (h : hid) (ok : bool).  (* RunHandlers: next handler of the map iteration; Subscribe succeeds? *)
 
 Inductive label :=
@@ -263,11 +266,11 @@ Definition cl_step (s : rstate) (me : owner) (p : clpc) (c : choice) : option (r
   | KWantH, CStep =>
       match hlock s with None => Some (s <| hlock := Some me |>, KCheck) | Some _ => None end
   | KCheck, CStep =>
-      if closedF s then Some (s <| hlock := None |> <| clock := None |>, KRet true)
+      if closedF s then Some (s <| hlock := None |> <| clock := None |>, KRet (negb (closeErr s)))
       else Some (s <| closedF := true |> <| closingCh := true |>, KWait)
   | KWait, CStep =>
       if Nat.eqb (hwg s) 0 && none_inflight s then Some (s, KFinish true) else None
-  | KWait, CAlt => Some (s, KFinish false)
+  | KWait, CAlt => Some (s <| closeErr := true |>, KFinish false)
   | KFinish ok, CStep =>
       Some (s <| closedCh := true |> <| hlock := None |> <| clock := None |>, KRet ok)
   | _, _ => None
@@ -413,6 +416,7 @@ Definition step (s : rstate) (l : label) : option (rstate * list aev) :=
                      | O => None
                      end
           | CAlt => if closedCh s then Some (s <| wat := WDone |>, []) else None
+          | CCtx => if fix15 s && (cctx s || rcancel s) then Some (s <| wat := WWait |>, []) else None
           | _ => None
           end
       | WWait =>
@@ -463,7 +467,11 @@ Definition step (s : rstate) (l : label) : option (rstate * list aev) :=
           if closing then
             if closingCh s then Some (set_h s h (x <| h_hc := CDone |> <| h_subOpen := false |> <| h_cancel := true |>), []) else None
           else
-            if hctx_done s h then Some (set_h s h (x <| h_hc := CDone |> <| h_cancel := true |>), []) else None
+            (* case <-ctx.Done(): then the non-blocking poll of routersCloseCh (D6 repair): still close the subscriber *)
+            if hctx_done s h then
+              Some (set_h s h (if closingCh s then x <| h_hc := CDone |> <| h_subOpen := false |> <| h_cancel := true |>
+                               else x <| h_hc := CDone |> <| h_cancel := true |>), [])
+            else None
       | _ => None
       end
   end.
